@@ -192,6 +192,7 @@ inductive SExpr
   | range (ds comp : Nat) (lo hi : Rat)      -- RangeSubsetState(lo, hi, att=main component)
   | gt (ds comp : Nat) (v : Rat)             -- InequalitySubsetState  (comp > v)
   | pixRange (ds axis : Nat) (lo hi : Rat)   -- RangeSubsetState on a pixel component id
+  | elems (indices : List Nat)               -- ElementSubsetState(indices, data=None): any dataset
   | and (a b : SExpr)
   | or (a b : SExpr)
   | xor (a b : SExpr)
@@ -251,6 +252,7 @@ def SExpr.err? (w : World) (d : Nat) : SExpr → Option Err
   | .range ds c _ _ => if ds = d ∧ c < (w.ds d).comps.length then none else some .incompatible
   | .gt ds c _ => if ds = d ∧ c < (w.ds d).comps.length then none else some .incompatible
   | .pixRange ds ax _ _ => if ds = d ∧ ax < w.ndim d then none else some .incompatible
+  | .elems ix => if ix.all (fun i => decide (i < (w.ds d).shape.foldl (· * ·) 1)) then none else some .incompatible
   | .and a b => match a.err? w d with
     | some e => some e
     | none => b.err? w d
@@ -267,6 +269,7 @@ def SExpr.eval (w : World) (d : Nat) (idx : List Int) : SExpr → Bool
   | .range _ c lo hi => let v : Rat := (compAt (w.ds d) c idx : Int); decide (lo ≤ v) && decide (v ≤ hi)
   | .gt _ c x => let v : Rat := (compAt (w.ds d) c idx : Int); decide (x < v)
   | .pixRange _ ax lo hi => let v : Rat := (idx.getD ax 0 : Int); decide (lo ≤ v) && decide (v ≤ hi)
+  | .elems ix => ix.contains (ravel (w.ds d).shape idx)
   | .and a b => a.eval w d idx && b.eval w d idx
   | .or a b => a.eval w d idx || b.eval w d idx
   | .xor a b => (a.eval w d idx) != (b.eval w d idx)
